@@ -8,6 +8,14 @@ from pathlib import Path
 PROPS = [f"C{i:02d}" for i in range(1, 21)]
 V = Path("/verif")
 
+def benign_specs():
+    out = []
+    for d in sorted((V / "benign").iterdir()):
+        if (d / "patch.diff").exists():
+            out.append({"id": f"benign:{d.name}", "kind": "patch", "path": str(d / "patch.diff"), "reverse": False})
+    return out
+
+
 def specs():
     out = []
     for d in sorted((V / "seeded").iterdir()):
@@ -52,6 +60,8 @@ def run(spec):
                     bad = [o for o in chk.obligations if not o.ok and chk._known_entry(o) is None]
                     if bad:
                         res["props"][prop] = sorted({o.rule for o in bad})
+                    elif chk.unknowns:
+                        res["props"][prop] = ["ANALYSIS-ERROR: unrecognised " + ", ".join(sorted({u.rule for u in chk.unknowns}))]
                 except AnchorError as e:
                     bad = [o for o in chk.obligations if not o.ok and chk._known_entry(o) is None]
                     res["props"][prop] = sorted({o.rule for o in bad}) if bad else ["ANALYSIS-ERROR: " + str(e)[:80]]
@@ -62,6 +72,23 @@ def run(spec):
         shutil.rmtree(tmp, ignore_errors=True)
 
 if __name__ == "__main__":
+    if "--benign" in sys.argv:
+        # behaviour-preserving refactorings: every report is a false alarm (exit 1) or an unrecognised idiom (exit 2)
+        S = benign_specs()
+        with ProcessPoolExecutor(16) as ex:
+            R = list(ex.map(run, S))
+        json.dump(R, open(V / "benign" / "matrix.json", "w"), indent=1)
+        fa = er = 0
+        for r in R:
+            if not r["applied"]:
+                print(f"{r['id']:18s} NOT-APPLICABLE {r.get('why','')[:80]}")
+                continue
+            det = {p: v for p, v in r["props"].items() if not v[0].startswith(("ANALYSIS", "INTERNAL"))}
+            err = {p: v[0][:110] for p, v in r["props"].items() if v[0].startswith(("ANALYSIS", "INTERNAL"))}
+            fa += len(det); er += len(err)
+            print(f"{r['id']:18s} " + ("quiet" if not det and not err else "") + (f"FALSE-ALARM {det} " if det else "") + (f"exit2 {err}" if err else ""))
+        print(f"{len(R)} refactorings x 20 properties: {fa} false alarms, {er} analysis errors")
+        sys.exit(0)
     S = specs()
     with ProcessPoolExecutor(16) as ex:
         R = list(ex.map(run, S))
